@@ -149,6 +149,8 @@ def verify_function(reg, qual, prop):
             r, sc = coerce(r, rk)
             ctx.oblige(final, "post:return-kind", sc, "post", fi.node.lineno)
             ex.result = r
+            if spec.denotes:
+                ctx.oblige(final, "pure-function", z3.BoolVal(is_pure_float_function(fi.node, spec)), "post", fi.node.lineno)
             # vacuity guard: the end of the function must be reachable under the hypotheses
             ctx.obls.append(Obligation("%s/cover:end" % ctx.prefix, len(ctx.hyps), final.pc, FALSE, "cover",
                                        fi.node.lineno))
@@ -206,6 +208,43 @@ def verify_function(reg, qual, prop):
     res.inputs = inputs
     package(reg, ctx, res)
     return res
+
+
+def is_pure_float_function(node, spec):
+    """Syntactic purity (for `denotes`): float parameters only, the body reads nothing but its parameters, its own
+    locals and numeric literals, and calls nothing but math.* / min / max / abs - so, in the encoding (where math
+    functions and division are functions), the result is a function of the arguments."""
+    if spec.modifies or spec.fresh or any(k != "float" for k in spec.params.values()):
+        return False
+    if [a.arg for a in node.args.args] != list(spec.params):
+        return False
+    bound = set(spec.params)
+    for n in ast.walk(node):
+        if isinstance(n, ast.Assign):
+            for t in n.targets:
+                if not isinstance(t, ast.Name):
+                    return False
+                bound.add(t.id)
+        elif isinstance(n, ast.AugAssign):
+            if not isinstance(n.target, ast.Name):
+                return False
+    for n in ast.walk(node):
+        if isinstance(n, (ast.Subscript, ast.Global, ast.Nonlocal, ast.Lambda, ast.For, ast.While, ast.Try, ast.With,
+                          ast.Yield, ast.Await, ast.Starred, ast.ListComp, ast.GeneratorExp)):
+            return False
+        if isinstance(n, ast.Attribute):
+            if not (isinstance(n.value, ast.Name) and n.value.id == "math"):
+                return False
+        elif isinstance(n, ast.Call):
+            f = n.func
+            ok = (isinstance(f, ast.Name) and f.id in ("min", "max", "abs")) or \
+                 (isinstance(f, ast.Attribute) and isinstance(f.value, ast.Name) and f.value.id == "math")
+            if not ok:
+                return False
+        elif isinstance(n, ast.Name) and isinstance(n.ctx, ast.Load):
+            if n.id not in bound and n.id not in ("min", "max", "abs", "math", "float"):
+                return False
+    return True
 
 
 def _share_heap(ex, old, st):
